@@ -387,14 +387,14 @@ def run_c06(chk, tier, seed):
     for d in dl:
         for p in pulls:
             units.append(U(["A"], data=[DATA[x] for x in d], h=H(pulls=list(p))))
-            if len(p) <= 2 and len(d) <= 2:
+            if len(p) <= (3 if th else 2) and len(d) <= 2:
                 small.append(units[-1])
         units.append(U(["Bq"], query=True, data=[DATA[x] for x in d], h=H(pulls=["opt"] * len(d), items=("0",))))
     okq = [U(["Bq"], query=True, h=H(items=("7",))), U(["GRP", "X"], data=[DATA["chr"]], h=H(pulls=["req"]))]
     defs = [f"Var == {set_of(units)}", f"Okq == {set_of(okq)}", f"VarSmall == {set_of(small)}"]
     # first / last position with every ending; middle position between two fixed units
     s1 = run_projection(chk, "C06", "first", ft, cands, defs, "Var", "Okq", 2, ["", "\n", " ", " \n", ";"], [-1])
-    s2 = run_projection(chk, "C06", "middle", ft, cands, defs, "Okq", ("Var" if th else "VarSmall") + " \\cup Okq", 3, [""], [-1])
+    s2 = run_projection(chk, "C06", "middle", ft, cands, defs, "Okq", "VarSmall \\cup Okq", 3, [""], [-1])
     chk.cov["exhaustive"] = True
     chk.cov["rule"] = (f"units carrying {len(dl)} data lists (0..3 elements over all seven data types incl. separators inside strings/blocks) x {len(pulls)} pull sequences over required/optional, "
                        "in first, middle and last position and before every kind of message ending; handlers log the exact tokens they receive; non-trivial = failing or multi-unit")
